@@ -240,7 +240,8 @@ func (m *Message) tryCompressPayload(enableCompression bool) error {
 		return buf.Err
 	}
 	compressedPayload := buf.Bytes()
-	if m.Flags&Compressed == 0 && enableCompression {
+	m.Flags &^= Compressed // describes the bytes produced below, not an earlier encoding of this message.
+	if enableCompression {
 		switch m.Payload.(type) {
 		case *payload.Headers, *payload.MerkleBlock, payload.NullPayload,
 			*payload.Inventory, *payload.MPTInventory:
